@@ -50,8 +50,11 @@ func (x *Exec) funcVarCall(f *frame, in ssa.Instruction, c *ssa.CallCommon, args
 	if sig := c.Signature(); sig.Results().Len() == 1 {
 		rt := sig.Results().At(0).Type()
 		if sig.Params().Len() == 0 && rt.String() == "time.Time" {
-			x.assumed[fmt.Sprintf("extern %s (package variable bound to time.Now): arbitrary time value, no effect on modelled state", g.Name())] = true
-			return Val{T: x.havocValue(st, rt, "now")}, true
+			return x.clockValue(st, rt, g.Name()+" (package variable bound to time.Now)"), true
+		}
+		if sig.Params().Len() == 0 && rt.String() == "float64" && strings.Contains(strings.ToLower(g.Name()), "rand") {
+			x.assumed[fmt.Sprintf("extern %s (package variable bound to rand.Float64): any value in [0,1)", g.Name())] = true
+			return x.randFloat64(st), true
 		}
 		if sig.Params().Len() == 2 && rt.String() == "*time.Timer" && sig.Params().At(0).Type().String() == "time.Duration" {
 			x.assumed[fmt.Sprintf("extern %s (package variable bound to time.AfterFunc): registers a callback, no synchronous effect on modelled state", g.Name())] = true
